@@ -3,7 +3,7 @@ CONSTANTS
   Kinds = {"insert", "insert_cols", "ctas", "update", "merge"}
   Schemas = {"none", "s"}
   Bare = {"a", "b"}
-  TAliases = {"x", "b", "y", "u", "v", "a"}
+  TAliases = {"x", "b", "y", "u", "v", "a", "zt"}
   SAliases = {"x", "y", "b", "u", "v", "a"}
   ColNames = {"c", "d"}
   MaxRels = 3
